@@ -247,6 +247,13 @@ class _CountingHandler(logging.Handler):
 _loaded = {}
 
 
+_foreign_jobs = []
+
+
+def _foreign_handle(**kwargs):
+    return None
+
+
 def load_impl():
     """Import the scheduler package from REPO (fresh interpreter state is the caller's job)."""
     if _loaded:
@@ -262,6 +269,15 @@ def load_impl():
     assert os.path.realpath(scheduler.__file__).startswith(os.path.realpath(REPO)), scheduler.__file__
     from . import clock
     clock.install()
+    # C19: unrelated jobs (both front ends, no / empty keyword mapping) have their OWN mapping written through the
+    # public accessor before any history runs: no job of a history may ever receive that keyword
+    from scheduler.asyncio.job import Job as _AJob
+    for _cls in (Job, _AJob):
+        for _kw in (None, {}):
+            _j = _cls(JobType.CYCLIC, [dt.timedelta(seconds=1)], _foreign_handle, kwargs=_kw,
+                      start=dt.datetime(2000, 1, 1))
+            _j.kwargs["k97"] = 97
+            _foreign_jobs.append(_j)
     _loaded.update(scheduler=scheduler, trigger=trigger, Job=Job, JobType=JobType,
                    prioritization=prioritization, clock=clock,
                    SchedulerError=scheduler.SchedulerError)
